@@ -11,7 +11,9 @@
           exit status, strace'd mkdir/open(O_CREAT)/write/fchmod/rename sequence, changed inodes/mtimes and the
           final tree are compared with this model (kind=model), output names with `specNames`/`specRefused`
           (kind=spec); SIGKILL is injected at every state-changing syscall and the surviving tree inspected
-          (kind=oracle).
+          (kind=oracle); after every regenerate step of every history the outputs are compared byte for byte with a
+          fresh run, untouched-ness (inode, mtime, mode) and the complete listing inside and outside the output
+          directory are checked (kind=oracle `cli-fresh-oracle`).
 
   Vocabulary used in the statements (definitions in QV.Proofs.Cli / QV.Model.Cli):
     sourceOutputs opts src  the (path, content) pairs generate_ui_file writes for `src` (ui, then header unless
@@ -21,6 +23,13 @@
     IsTempName n            n = ".tmp" ++ r with no '.' in r     (tempfile's names; assumption on that crate)
     NoCollision J           no path occurs in J with two different contents
     key p                   p without `.` components (identity of a file)
+
+  Added for command lines with several sources and for edit/regenerate histories:
+    mixed_sources_refused / accepted_iff_all_safe   one unsafe source in ANY position refuses the whole run (no op)
+    existing_file_untouched_unless_changed          a run targets no existing file except outputs whose content changes
+    unchanged_outputs_untouched                      … in particular an output that already holds its content
+    regenerate_equals_fresh                          from any two file systems the outputs end up equal (= planned)
+    rerun_after_kill_completes                       … also from every state a killed run can leave behind
 
   PARTIAL BY NATURE.  The theorems are about the model over an abstract file system.  That the operating
   system's rename(2) is atomic, that a SIGKILL'ed process leaves exactly the effects of the syscalls it
@@ -102,6 +111,23 @@ theorem refused_writes_nothing (opts : Options) (tmp : Nat → Name) (fs : FS) (
     (h : refuses opts (srcs.map (·.path)) = true) : generateUi opts tmp fs srcs = ([], .refused) := by
   simp [generateUi, h]
 
+/-- **One unsafe source anywhere refuses the whole command line**: with `--output-directory`, if SOME source — first,
+    in the middle or last, whatever the others look like — has a `RootDir` or `ParentDir` component, the run is
+    refused and performs no operation at all (so no source, safe or not, gets an output, inside or outside). -/
+theorem mixed_sources_refused (opts : Options) (d : Path) (hd : opts.outputDirectory = some d) (tmp : Nat → Name) (fs : FS)
+    (pre post : List Source) (bad : Source)
+    (hbad : ∃ c ∈ bad.path, c = Component.rootDir ∨ c = Component.parentDir) :
+    generateUi opts tmp fs (pre ++ bad :: post) = ([], .refused) := by
+  apply refused_writes_nothing
+  rw [refusal_exact]
+  refine ⟨by simp [hd], bad.path, ?_, hbad⟩
+  simp
+
+/-- … and a command line is accepted only if EVERY source is safe. -/
+theorem accepted_iff_all_safe (opts : Options) (d : Path) (hd : opts.outputDirectory = some d) (ps : List Path) :
+    refuses opts ps = false ↔ ∀ p ∈ ps, p.all acceptedComponent = true := by
+  simp [refuses, hd]
+
 /-- **no_escape.**  With `--output-directory d`, whatever the sources, options, temp names and file system:
     every path any operation of the run creates, writes, chmods, renames from or renames to is
     `d` followed by one or more `Normal` components; the only other operations are `mkdir`s of `d` itself and
@@ -157,6 +183,24 @@ theorem rerun_noop_partial (opts : Options) (tmp tmp' : Nat → Name) (fs : FS) 
 theorem unchanged_output_untouched (fs : FS) (nm : Name) (o : Path) (b : Bytes) (h : fs o = some (.file b)) :
     writeIfChanged fs nm o b = ([], .ok) :=
   writeIfChanged_skip h
+
+/-- **Only when needed, and nothing else** (histories of edit/regenerate steps).  Whatever file system a run
+    starts from — outputs of earlier runs, some of them stale, removed, or left over from other sources — an
+    existing file `p` is the target of NO operation of the run (no create, write, chmod, rename from or onto it:
+    same inode, same mtime) unless the run plans a different content for exactly that path.  In particular:
+    an output whose content would not change is untouched even if the other output of the same source, or other
+    sources, are rewritten; sources and all unrelated files are untouched. -/
+theorem existing_file_untouched_unless_changed (opts : Options) (tmp : Nat → Name) (htmp : ∀ k, IsTempName (tmp k))
+    (fs : FS) (srcs : List Source) (hnc : NoCollision (execOutputs opts srcs)) (p : Path) (c : Bytes)
+    (hp : fs p = some (.file c)) (hall : ∀ b, (p, b) ∈ execOutputs opts srcs → b = c) :
+    ∀ op ∈ (generateUi opts tmp fs srcs).1, p ∉ op.targets :=
+  generateUi_avoids htmp hnc hp hall
+
+theorem unchanged_outputs_untouched (opts : Options) (tmp : Nat → Name) (htmp : ∀ k, IsTempName (tmp k))
+    (fs : FS) (srcs : List Source) (hnc : NoCollision (execOutputs opts srcs)) (o : Path) (b : Bytes)
+    (ho : (o, b) ∈ execOutputs opts srcs) (h : fs o = some (.file b)) :
+    ∀ op ∈ (generateUi opts tmp fs srcs).1, o ∉ op.targets :=
+  generateUi_avoids htmp hnc h (fun b' hb' => hnc o b' b hb' ho)
 
 /-! ## 4. kill points -/
 
@@ -227,6 +271,33 @@ theorem output_written (opts : Options) (tmp : Nat → Name) (htmp : ∀ k, IsTe
   simp only [href, hrd, Bool.false_eq_true, if_false] at hio ⊢
   exact (loop_rerun_establish htmp srcs fs 0 false hio hnc).1
 
+/-- **Every regenerate step converges to the fresh result.**  Start the same command from ANY two file systems
+    (`fs`: whatever earlier edits, runs, removals, stale files or a killed run left behind; `fs0`: e.g. the empty
+    directory of a fresh checkout): if neither run ends in an I/O error, every output path of every translated
+    source holds the same content afterwards — the planned one.  So a removed output is re-created, a stale one
+    is replaced, and the support header follows an edit that leaves the `.ui` unchanged. -/
+theorem regenerate_equals_fresh (opts : Options) (tmp tmp0 : Nat → Name) (htmp : ∀ k, IsTempName (tmp k))
+    (htmp0 : ∀ k, IsTempName (tmp0 k)) (fs fs0 : FS) (srcs : List Source)
+    (hio : (generateUi opts tmp fs srcs).2.isIo = false) (hio0 : (generateUi opts tmp0 fs0 srcs).2.isIo = false)
+    (hnc : NoCollision (execOutputs opts srcs)) (href : refuses opts (srcs.map (·.path)) = false)
+    (hrd : (srcs.any fun s => isUnreadable s.outcome) = false) :
+    ∀ x ∈ execOutputs opts srcs,
+      run fs (generateUi opts tmp fs srcs).1 x.1 = some (.file x.2) ∧
+      run fs (generateUi opts tmp fs srcs).1 x.1 = run fs0 (generateUi opts tmp0 fs0 srcs).1 x.1 := by
+  intro x hx
+  have h1 := output_written opts tmp htmp fs srcs hio hnc href hrd x hx
+  have h2 := output_written opts tmp0 htmp0 fs0 srcs hio0 hnc href hrd x hx
+  exact ⟨h1, h1.trans h2.symm⟩
+
+/-- **Recovery after a kill**: run the command again from any state a killed run can leave behind
+    (`CrashState`); if that second run meets no I/O error, every output holds its complete planned content. -/
+theorem rerun_after_kill_completes (opts : Options) (tmp tmp' : Nat → Name) (htmp' : ∀ k, IsTempName (tmp' k))
+    (fs s : FS) (srcs : List Source) (_hs : CrashState fs (generateUi opts tmp fs srcs).1 s)
+    (hio : (generateUi opts tmp' s srcs).2.isIo = false) (hnc : NoCollision (execOutputs opts srcs))
+    (href : refuses opts (srcs.map (·.path)) = false) (hrd : (srcs.any fun s => isUnreadable s.outcome) = false) :
+    ∀ x ∈ execOutputs opts srcs, run s (generateUi opts tmp' s srcs).1 x.1 = some (.file x.2) :=
+  output_written opts tmp' htmp' s srcs hio hnc href hrd
+
 /-! ## non-vacuity: concrete runs of the model (path texts are spelled as character lists so that the
     kernel evaluates them directly) -/
 
@@ -274,5 +345,28 @@ example : generateUi {} ex_tmp (fun p => if p = parsePath ['x', '.', 'u', 'i'] t
       [⟨parsePath ['X', '.', 'q', 'm', 'l'], .ok [1] [2]⟩]
     = ([.createTemp (parsePath ['.', 't', 'm', 'p', 'a']), .write (parsePath ['.', 't', 'm', 'p', 'a']) [1], .chmod (parsePath ['.', 't', 'm', 'p', 'a'])],
        .ioPersist) := by decide +kernel
+
+/-- mixed command line `-O out Good.qml ../Evil.qml` (either order) and `Good.qml /abs/Evil.qml`: refused, no op -/
+def ex_good : Source := ⟨parsePath ['G', 'o', 'o', 'd', '.', 'q', 'm', 'l'], .ok [1] [2]⟩
+def ex_evil : Source := ⟨parsePath ['.', '.', '/', 'E', 'v', 'i', 'l', '.', 'q', 'm', 'l'], .ok [3] [4]⟩
+def ex_abs : Source := ⟨parsePath ['/', 't', '/', 'E', 'v', 'i', 'l', '.', 'q', 'm', 'l'], .ok [3] [4]⟩
+example : generateUi ex_opts ex_tmp (fun _ => none) [ex_good, ex_evil] = ([], .refused)
+    ∧ generateUi ex_opts ex_tmp (fun _ => none) [ex_evil, ex_good] = ([], .refused)
+    ∧ generateUi ex_opts ex_tmp (fun _ => none) [ex_good, ex_abs, ex_good] = ([], .refused)
+    ∧ (generateUi ex_opts ex_tmp (fun _ => none) [ex_good]).2 = .ok := by decide +kernel
+
+/-- edit only the binding expression (ui bytes the same, header bytes differ): the second run rewrites the header
+    (4 ops on `uisupport_x.h` and its temp file) and performs no op on `x.ui`; a removed header is re-created -/
+def ex_x1 : Source := ⟨parsePath ['X', '.', 'q', 'm', 'l'], .ok [1] [2]⟩
+def ex_x2 : Source := ⟨parsePath ['X', '.', 'q', 'm', 'l'], .ok [1] [3]⟩
+def ex_xui : Path := parsePath ['x', '.', 'u', 'i']
+def ex_xh : Path := parsePath ['u', 'i', 's', 'u', 'p', 'p', 'o', 'r', 't', '_', 'x', '.', 'h']
+def ex_after1 : FS := run (fun _ => none) (generateUi {} ex_tmp (fun _ => none) [ex_x1]).1
+example : (generateUi {} ex_tmp ex_after1 [ex_x2]).1.length = 4
+    ∧ (∀ op ∈ (generateUi {} ex_tmp ex_after1 [ex_x2]).1, ex_xui ∉ op.targets)
+    ∧ run ex_after1 (generateUi {} ex_tmp ex_after1 [ex_x2]).1 ex_xh = some (.file [3])
+    ∧ run ex_after1 (generateUi {} ex_tmp ex_after1 [ex_x2]).1 ex_xui = some (.file [1]) := by decide +kernel
+example : run (ex_after1.set ex_xh none) (generateUi {} ex_tmp (ex_after1.set ex_xh none) [ex_x1]).1 ex_xh = some (.file [2]) := by
+  decide +kernel
 
 end QV.Props.C15
